@@ -925,3 +925,352 @@ Theorem C08_tree_api_nonvacuous :
                  T 4 (rd_number (dbl_of_int 3)) []]]) ).
 Proof. exact (conj ex_create_string_any_oracle (conj ex_setvs_any_oracle (conj ex_intarray_any_oracle (conj ex_setvs_refused (conj ex_setvs_granted (conj ex_intarray_refused_clean ex_intarray_granted)))))). Qed.
 Print Assumptions C08_tree_api_nonvacuous.
+
+(** ------------------------------------------------------------------ tree API: the cJSON_Add<Type>ToObject helpers *)
+(** The nine helpers cJSON_AddNullToObject, cJSON_AddTrueToObject, cJSON_AddFalseToObject, cJSON_AddBoolToObject,
+    cJSON_AddNumberToObject, cJSON_AddStringToObject, cJSON_AddRawToObject, cJSON_AddObjectToObject,
+    cJSON_AddArrayToObject (cJSON.c: create the item; add_item_to_object(object, name, item, hooks, false); on
+    failure cJSON_Delete(item) and return NULL), proved in CoreRefineHelpers.v for an ARBITRARY oracle by composing
+    the constructor lemmas (C08_constructors / C08_string_constructors), add_item_to_object (C08_object_keys) and
+    cJSON_Delete (CoreRefineDelete.cJSON_Delete_sim).  This closes the gap noted above ("no composed theorem yet").
+    Hypotheses: [WF h F], [live_below h], [object = Some p] a node of F that is not a reference node
+    ([find_tree p F = Some (T p dp csp)], [is_ref dp = false]), [name = Some sb] a readable C string block (and, for
+    the string / raw helper, the text a readable C string block [vb]).
+    [add_helper_post oracle m h F p csp sb d h1] (written out in [C08_add_helper_post_means]; [d] = data of the created
+    node, [h1] = heap after the constructor) is the two-branch result of the call [m]:
+      - every request of the call granted ([forall k, h_req h <= k < h_req h' -> oracle k = false]): the result is
+        [Some r] with [r = h_next h], and the result heap [h'] encodes
+          [spec_add_to_object (spec_create F r d) (Some p) (Some sb) (Some r) false (Some nk)]
+        = F with the new LAST member [T r (rd_owned_key d nk) []] of [p]: created data [d] (type word; for numbers
+        valuedouble and valueint = [sat_int]; for string / raw the fresh copy [Pos.succ r] of the text), key [nk] = a
+        fresh library block holding a copy of the name; [WF h' F'], [live_below h'], [NoLeak] preserved;
+      - otherwise [None] in a heap [h'] with [clean_failure h h'] (see [C08_clean_failure_means]: every forest encoded
+        by h is encoded by h', same live set, same ledger [lib_live], node maps and strings of live blocks
+        bit-identical: nothing allocated during the call remains, no pre-existing tree is touched, the library remains
+        usable) and [refused oracle h h'] (the node, its string copy, or the key copy was refused; in the last two
+        cases what had been allocated was released again by cJSON_Delete). *)
+From CJ Require Import CoreRefineHelpers.
+
+(* the definition of add_helper_post, written out *)
+Theorem C08_add_helper_post_means :
+  (* add_helper_post_unfold *)
+  ( ∀ (oracle : nat → bool) (m : M ptr) (h : heap) (F : forest) (p : positive) (csp : list tree) 
+      (sb : positive) (d : rdata) (h1 : heap),
+      add_helper_post oracle m h F p csp sb d h1
+      ↔ (let r := h_next h in
+         let nk := h_next h1 in
+         let d' := rd_owned_key d nk in
+         let F' := set_children p (csp ++ [T r d' []]) F in
+         let h' := upd_maps (new_str h1 (str_at h sb ++ [0%Z])) (heap_lnk_of F') (heap_dat_of F') in
+         (∀ k : nat, h_req h <= k < h_req h' → oracle k = false)
+         ∧ spec_add_to_object (spec_create F r d) (Some p) (Some sb) (Some r) false (Some nk) = (F', true)
+           ∧ m h = Ret (Some r, h')
+             ∧ WF h' F'
+               ∧ live_below h'
+                 ∧ (NoLeak h F → NoLeak h' F')
+                   ∧ Readable h' nk
+                     ∧ str_at h' nk = str_at h sb
+                       ∧ h_own h' !! nk = Some Lib
+                         ∧ (nk ∉ owned F)
+                           ∧ (∀ b : positive, Readable h1 b → Readable h' b ∧ str_at h' b = str_at h1 b))
+        ∨ (∃ h' : heap, m h = Ret (None, h') ∧ clean_failure h h' ∧ refused oracle h h') ).
+Proof. exact add_helper_post_unfold. Qed.
+Print Assumptions C08_add_helper_post_means.
+
+(* the nine helpers, container and name given: all requests granted => member appended; else NULL, clean failure,
+   a refused request *)
+Theorem C08_add_helpers :
+  (* cJSON_AddNullToObject_sim *)
+  ( ∀ (oracle : nat → bool) (h : heap) (F : forest),
+      WF h F
+      → live_below h
+        → ∀ (p : positive) (dp : rdata) (csp : list tree) (sb : positive),
+            find_tree p F = Some (T p dp csp)
+            → is_ref dp = false
+              → Readable h sb
+                → add_helper_post oracle (cJSON_AddNullToObject oracle (Some p) (Some sb)) h F p csp sb
+                    (rd_of_type c_cJSON_NULL) (new_node h (rd_of_type c_cJSON_NULL)) )
+  ∧
+  (* cJSON_AddTrueToObject_sim *)
+  ( ∀ (oracle : nat → bool) (h : heap) (F : forest),
+      WF h F
+      → live_below h
+        → ∀ (p : positive) (dp : rdata) (csp : list tree) (sb : positive),
+            find_tree p F = Some (T p dp csp)
+            → is_ref dp = false
+              → Readable h sb
+                → add_helper_post oracle (cJSON_AddTrueToObject oracle (Some p) (Some sb)) h F p csp sb
+                    (rd_of_type c_cJSON_True) (new_node h (rd_of_type c_cJSON_True)) )
+  ∧
+  (* cJSON_AddFalseToObject_sim *)
+  ( ∀ (oracle : nat → bool) (h : heap) (F : forest),
+      WF h F
+      → live_below h
+        → ∀ (p : positive) (dp : rdata) (csp : list tree) (sb : positive),
+            find_tree p F = Some (T p dp csp)
+            → is_ref dp = false
+              → Readable h sb
+                → add_helper_post oracle (cJSON_AddFalseToObject oracle (Some p) (Some sb)) h F p csp sb
+                    (rd_of_type c_cJSON_False) (new_node h (rd_of_type c_cJSON_False)) )
+  ∧
+  (* cJSON_AddBoolToObject_sim *)
+  ( ∀ (oracle : nat → bool) (h : heap) (F : forest),
+      WF h F
+      → live_below h
+        → ∀ (p : positive) (dp : rdata) (csp : list tree) (sb : positive),
+            find_tree p F = Some (T p dp csp)
+            → is_ref dp = false
+              → Readable h sb
+                → ∀ boolean : bool,
+                    add_helper_post oracle (cJSON_AddBoolToObject oracle (Some p) (Some sb) boolean) h F p csp sb
+                      (rd_of_type (if boolean then c_cJSON_True else c_cJSON_False))
+                      (new_node h (rd_of_type (if boolean then c_cJSON_True else c_cJSON_False))) )
+  ∧
+  (* cJSON_AddNumberToObject_sim *)
+  ( ∀ (oracle : nat → bool) (h : heap) (F : forest),
+      WF h F
+      → live_below h
+        → ∀ (p : positive) (dp : rdata) (csp : list tree) (sb : positive),
+            find_tree p F = Some (T p dp csp)
+            → is_ref dp = false
+              → Readable h sb
+                → ∀ number : dbl,
+                    add_helper_post oracle (cJSON_AddNumberToObject oracle (Some p) (Some sb) number) h F p csp sb
+                      (rd_number number) (new_node h (rd_number number)) )
+  ∧
+  (* cJSON_AddStringToObject_sim *)
+  ( ∀ (oracle : nat → bool) (h : heap) (F : forest),
+      WF h F
+      → live_below h
+        → ∀ (p : positive) (dp : rdata) (csp : list tree) (sb : positive),
+            find_tree p F = Some (T p dp csp)
+            → is_ref dp = false
+              → Readable h sb
+                → ∀ vb : positive,
+                    Readable h vb
+                    → let h1 := new_string h c_cJSON_String (str_at h vb ++ [0%Z]) in
+                      add_helper_post oracle (cJSON_AddStringToObject oracle (Some p) (Some sb) (Some vb)) h F p
+                        csp sb (rd_string c_cJSON_String (Pos.succ (h_next h))) h1
+                      ∧ Readable h1 (Pos.succ (h_next h))
+                        ∧ str_at h1 (Pos.succ (h_next h)) = str_at h vb
+                          ∧ h_own h1 !! Pos.succ (h_next h) = Some Lib )
+  ∧
+  (* cJSON_AddRawToObject_sim *)
+  ( ∀ (oracle : nat → bool) (h : heap) (F : forest),
+      WF h F
+      → live_below h
+        → ∀ (p : positive) (dp : rdata) (csp : list tree) (sb : positive),
+            find_tree p F = Some (T p dp csp)
+            → is_ref dp = false
+              → Readable h sb
+                → ∀ vb : positive,
+                    Readable h vb
+                    → let h1 := new_string h c_cJSON_Raw (str_at h vb ++ [0%Z]) in
+                      add_helper_post oracle (cJSON_AddRawToObject oracle (Some p) (Some sb) (Some vb)) h F p csp
+                        sb (rd_string c_cJSON_Raw (Pos.succ (h_next h))) h1
+                      ∧ Readable h1 (Pos.succ (h_next h))
+                        ∧ str_at h1 (Pos.succ (h_next h)) = str_at h vb
+                          ∧ h_own h1 !! Pos.succ (h_next h) = Some Lib )
+  ∧
+  (* cJSON_AddObjectToObject_sim *)
+  ( ∀ (oracle : nat → bool) (h : heap) (F : forest),
+      WF h F
+      → live_below h
+        → ∀ (p : positive) (dp : rdata) (csp : list tree) (sb : positive),
+            find_tree p F = Some (T p dp csp)
+            → is_ref dp = false
+              → Readable h sb
+                → add_helper_post oracle (cJSON_AddObjectToObject oracle (Some p) (Some sb)) h F p csp sb
+                    (rd_of_type c_cJSON_Object) (new_node h (rd_of_type c_cJSON_Object)) )
+  ∧
+  (* cJSON_AddArrayToObject_sim *)
+  ( ∀ (oracle : nat → bool) (h : heap) (F : forest),
+      WF h F
+      → live_below h
+        → ∀ (p : positive) (dp : rdata) (csp : list tree) (sb : positive),
+            find_tree p F = Some (T p dp csp)
+            → is_ref dp = false
+              → Readable h sb
+                → add_helper_post oracle (cJSON_AddArrayToObject oracle (Some p) (Some sb)) h F p csp sb
+                    (rd_of_type c_cJSON_Array) (new_node h (rd_of_type c_cJSON_Array)) ).
+Proof. exact (conj cJSON_AddNullToObject_sim (conj cJSON_AddTrueToObject_sim (conj cJSON_AddFalseToObject_sim (conj cJSON_AddBoolToObject_sim (conj cJSON_AddNumberToObject_sim (conj cJSON_AddStringToObject_sim (conj cJSON_AddRawToObject_sim (conj cJSON_AddObjectToObject_sim cJSON_AddArrayToObject_sim)))))))). Qed.
+Print Assumptions C08_add_helpers.
+
+(* NULL object or NULL name: the item is created first, add_item_to_object refuses, the item is deleted again => NULL
+   and a clean failure (no request need be refused); NULL text for the string / raw helper: the constructor releases
+   its node and returns NULL, nothing is inserted *)
+Theorem C08_add_helpers_null :
+  (* cJSON_AddNullToObject_null *)
+  ( ∀ (oracle : nat → bool) (h : heap) (F : forest),
+      WF h F
+      → live_below h
+        → ∀ object name : ptr,
+            object = None ∨ name = None
+            → ∃ h' : heap, cJSON_AddNullToObject oracle object name h = Ret (None, h') ∧ clean_failure h h' )
+  ∧
+  (* cJSON_AddTrueToObject_null *)
+  ( ∀ (oracle : nat → bool) (h : heap) (F : forest),
+      WF h F
+      → live_below h
+        → ∀ object name : ptr,
+            object = None ∨ name = None
+            → ∃ h' : heap, cJSON_AddTrueToObject oracle object name h = Ret (None, h') ∧ clean_failure h h' )
+  ∧
+  (* cJSON_AddFalseToObject_null *)
+  ( ∀ (oracle : nat → bool) (h : heap) (F : forest),
+      WF h F
+      → live_below h
+        → ∀ object name : ptr,
+            object = None ∨ name = None
+            → ∃ h' : heap, cJSON_AddFalseToObject oracle object name h = Ret (None, h') ∧ clean_failure h h' )
+  ∧
+  (* cJSON_AddBoolToObject_null *)
+  ( ∀ (oracle : nat → bool) (h : heap) (F : forest),
+      WF h F
+      → live_below h
+        → ∀ object name : ptr,
+            object = None ∨ name = None
+            → ∀ boolean : bool,
+                ∃ h' : heap,
+                  cJSON_AddBoolToObject oracle object name boolean h = Ret (None, h') ∧ clean_failure h h' )
+  ∧
+  (* cJSON_AddNumberToObject_null *)
+  ( ∀ (oracle : nat → bool) (h : heap) (F : forest),
+      WF h F
+      → live_below h
+        → ∀ object name : ptr,
+            object = None ∨ name = None
+            → ∀ number : dbl,
+                ∃ h' : heap,
+                  cJSON_AddNumberToObject oracle object name number h = Ret (None, h') ∧ clean_failure h h' )
+  ∧
+  (* cJSON_AddStringToObject_null *)
+  ( ∀ (oracle : nat → bool) (h : heap) (F : forest),
+      WF h F
+      → live_below h
+        → ∀ object name : ptr,
+            object = None ∨ name = None
+            → ∀ vb : positive,
+                Readable h vb
+                → ∃ h' : heap,
+                    cJSON_AddStringToObject oracle object name (Some vb) h = Ret (None, h') ∧ clean_failure h h' )
+  ∧
+  (* cJSON_AddRawToObject_null *)
+  ( ∀ (oracle : nat → bool) (h : heap) (F : forest),
+      WF h F
+      → live_below h
+        → ∀ object name : ptr,
+            object = None ∨ name = None
+            → ∀ vb : positive,
+                Readable h vb
+                → ∃ h' : heap,
+                    cJSON_AddRawToObject oracle object name (Some vb) h = Ret (None, h') ∧ clean_failure h h' )
+  ∧
+  (* cJSON_AddObjectToObject_null *)
+  ( ∀ (oracle : nat → bool) (h : heap) (F : forest),
+      WF h F
+      → live_below h
+        → ∀ object name : ptr,
+            object = None ∨ name = None
+            → ∃ h' : heap, cJSON_AddObjectToObject oracle object name h = Ret (None, h') ∧ clean_failure h h' )
+  ∧
+  (* cJSON_AddArrayToObject_null *)
+  ( ∀ (oracle : nat → bool) (h : heap) (F : forest),
+      WF h F
+      → live_below h
+        → ∀ object name : ptr,
+            object = None ∨ name = None
+            → ∃ h' : heap, cJSON_AddArrayToObject oracle object name h = Ret (None, h') ∧ clean_failure h h' )
+  ∧
+  (* cJSON_AddStringToObject_null_string *)
+  ( ∀ (oracle : nat → bool) (h : heap) (F : forest),
+      WF h F
+      → live_below h
+        → ∀ object name : ptr,
+            ∃ h' : heap, cJSON_AddStringToObject oracle object name None h = Ret (None, h') ∧ clean_failure h h' )
+  ∧
+  (* cJSON_AddRawToObject_null_raw *)
+  ( ∀ (oracle : nat → bool) (h : heap) (F : forest),
+      WF h F
+      → live_below h
+        → ∀ object name : ptr,
+            ∃ h' : heap, cJSON_AddRawToObject oracle object name None h = Ret (None, h') ∧ clean_failure h h' ).
+Proof. exact (conj cJSON_AddNullToObject_null (conj cJSON_AddTrueToObject_null (conj cJSON_AddFalseToObject_null (conj cJSON_AddBoolToObject_null (conj cJSON_AddNumberToObject_null (conj cJSON_AddStringToObject_null (conj cJSON_AddRawToObject_null (conj cJSON_AddObjectToObject_null (conj cJSON_AddArrayToObject_null (conj cJSON_AddStringToObject_null_string cJSON_AddRawToObject_null_raw)))))))))). Qed.
+Print Assumptions C08_add_helpers_null.
+
+(* non-vacuity (CoreRefineHelpers.v PART 3): [hobj] = two caller strings ("hi" = block 1, "hello" = block 2) and an
+   empty object (node 3), built from [empty_heap]; the hypotheses of the helper theorem hold there for every oracle;
+   concrete runs of cJSON_AddStringToObject(object 3, "hi", "hello") with the 1st / 2nd / 3rd request of the call
+   refused (NULL; live set, node maps, strings as before; the trace shows the releases) and with all granted (node 4
+   with text block 5 is the member "hi" (key block 6) of object 3), and with a NULL name *)
+Theorem C08_add_helpers_nonvacuous :
+  (* ex_add_string_any_oracle *)
+  ( ∀ oracle : nat → bool,
+      let h1' := new_string hobj c_cJSON_String (str_at hobj 2 ++ [0%Z]) in
+      add_helper_post oracle
+        (cJSON_AddStringToObject oracle (Some 3%positive) (Some 1%positive) (Some 2%positive)) hobj Fobj 3 [] 1
+        (rd_string c_cJSON_String (Pos.succ (h_next hobj))) h1'
+      ∧ Readable h1' (Pos.succ (h_next hobj))
+        ∧ str_at h1' (Pos.succ (h_next hobj)) = str_at hobj 2 ∧ h_own h1' !! Pos.succ (h_next hobj) = Some Lib )
+  ∧
+  (* ex_add_string_refused_clean *)
+  ( ∀ n : nat,
+      1 <= n <= 3
+      → ∃ h' : heap,
+          cJSON_AddStringToObject (refuse_nth n) (Some 3%positive) (Some 1%positive) (Some 2%positive) hobj =
+          Ret (None, h') ∧ clean_failure hobj h' ∧ WF h' Fobj ∧ lib_live h' = lib_live hobj )
+  ∧
+  (* ex_add_string_refused_1 *)
+  ( let m := cJSON_AddStringToObject (refuse_nth 1) (Some 3%positive) (Some 1%positive) (Some 2%positive) in
+    let h' := heap_after m hobj in
+    result_of m hobj = Some None
+    ∧ elements (h_live h') = elements (h_live hobj)
+      ∧ map_to_list (h_lnk h') = map_to_list (h_lnk hobj)
+        ∧ map_to_list (h_dat h') = map_to_list (h_dat hobj)
+          ∧ map_to_list (h_str h') = map_to_list (h_str hobj) ∧ h_req h' = 2 ∧ h_trace h' = h_trace hobj )
+  ∧
+  (* ex_add_string_refused_2 *)
+  ( let m := cJSON_AddStringToObject (refuse_nth 2) (Some 3%positive) (Some 1%positive) (Some 2%positive) in
+    let h' := heap_after m hobj in
+    result_of m hobj = Some None
+    ∧ elements (h_live h') = elements (h_live hobj)
+      ∧ map_to_list (h_lnk h') = map_to_list (h_lnk hobj)
+        ∧ map_to_list (h_dat h') = map_to_list (h_dat hobj)
+          ∧ map_to_list (h_str h') = map_to_list (h_str hobj)
+            ∧ h_req h' = 3 ∧ h_trace h' = [EvFree 4 LibcFn; EvAlloc 4 LibcFn] ++ h_trace hobj )
+  ∧
+  (* ex_add_string_refused_3 *)
+  ( let m := cJSON_AddStringToObject (refuse_nth 3) (Some 3%positive) (Some 1%positive) (Some 2%positive) in
+    let h' := heap_after m hobj in
+    result_of m hobj = Some None
+    ∧ elements (h_live h') = elements (h_live hobj)
+      ∧ map_to_list (h_lnk h') = map_to_list (h_lnk hobj)
+        ∧ map_to_list (h_dat h') = map_to_list (h_dat hobj)
+          ∧ map_to_list (h_str h') = map_to_list (h_str hobj)
+            ∧ h_req h' = 4
+              ∧ h_trace h' =
+                [EvFree 4 LibcFn; EvFree 5 LibcFn; EvAlloc 5 LibcFn; EvAlloc 4 LibcFn] ++ h_trace hobj )
+  ∧
+  (* ex_add_string_granted *)
+  ( let m := cJSON_AddStringToObject never (Some 3%positive) (Some 1%positive) (Some 2%positive) in
+    let h' := heap_after m hobj in
+    let F' := [T 3 (rd_of_type c_cJSON_Object) [T 4 (rd_owned_key (rd_string c_cJSON_String 5) 6) []]] in
+    result_of m hobj = Some (Some 4%positive)
+    ∧ map_to_list (h_lnk h') = map_to_list (heap_lnk_of F')
+      ∧ map_to_list (h_dat h') = map_to_list (heap_dat_of F')
+        ∧ str_at h' 5 = [104%Z; 101%Z; 108%Z; 108%Z; 111%Z]
+          ∧ str_at h' 6 = [104%Z; 105%Z]
+            ∧ elements (h_live h') = [1%positive; 2%positive; 4%positive; 6%positive; 3%positive; 5%positive]
+              ∧ result_of (cJSON_GetObjectItemCaseSensitive (Some 3%positive) (Some 1%positive)) h' =
+                Some (Some 4%positive) ∧ result_of (cJSON_GetArraySize (Some 3%positive)) h' = Some 1%Z )
+  ∧
+  (* ex_add_string_null_name *)
+  ( let m := cJSON_AddStringToObject never (Some 3%positive) None (Some 2%positive) in
+    let h' := heap_after m hobj in
+    result_of m hobj = Some None
+    ∧ elements (h_live h') = elements (h_live hobj)
+      ∧ map_to_list (h_lnk h') = map_to_list (h_lnk hobj)
+        ∧ map_to_list (h_dat h') = map_to_list (h_dat hobj)
+          ∧ map_to_list (h_str h') = map_to_list (h_str hobj) ∧ h_req h' = 3 ).
+Proof. exact (conj ex_add_string_any_oracle (conj ex_add_string_refused_clean (conj ex_add_string_refused_1 (conj ex_add_string_refused_2 (conj ex_add_string_refused_3 (conj ex_add_string_granted ex_add_string_null_name)))))). Qed.
+Print Assumptions C08_add_helpers_nonvacuous.
